@@ -111,6 +111,14 @@ def b_dict(en, st, a, kw):
     if not a and not kw:
         s, r = en.new_ref(st, 'dict', V.Dict(VL.nil))
         return [(s, r)]
+    if len(a) == 1 and not kw:
+        t = en.read(a[0], st)
+        s, r = en.new_ref(st.assume(V.is_Dict(t)), 'dict', t)       # dict(d): a fresh dict with the same entries
+        out = [(s, r)]
+        bad = en.fork(st, z3.Not(V.is_Dict(t)))
+        if bad is not None:
+            out.append((bad.tainted(), fresh('dict_of_iterable')))
+        return out
     raise SX.OutOfSubset("dict(...) with arguments")
 
 
@@ -445,6 +453,34 @@ def m_bit_length(en, st, recv, a, kw):
     return out
 
 
-METHODS = {'bit_length': m_bit_length, 'append': m_append, 'extend': m_extend, 'get': m_get, 'items': m_items, 'keys': m_keys, 'values': m_values, 'add': m_add,
+def m_popitem(en, st, recv, a, kw):
+    cur = en.read(recv, st)
+    n = length(V.ditems(cur))
+    out = []
+    q = en.fork(st, n > 0)
+    if q is not None:
+        last = nth(V.ditems(cur), n - 1)
+        out.append((en.mutate(recv, q, V.Dict(take(V.ditems(cur), n - 1))), SX.PyTuple([V.fst(last), V.snd(last)])))
+    q = en.fork(st, n <= 0)
+    if q is not None:
+        out.append((q, _E(en, 'KeyError')))
+    return out
+
+
+def m_decode(en, st, recv, a, kw):
+    """bytes.decode(): text or UnicodeDecodeError (a ValueError); str has no decode"""
+    v = en.read(recv, st)
+    out = []
+    q = en.fork(st, V.is_Str(v))
+    if q is not None:
+        out.append((q, _E(en, 'AttributeError')))
+    q = en.fork(st, z3.Not(V.is_Str(v)))
+    if q is not None:
+        out.append((q, V.Str(fresh('decoded', IntS))))
+        out.append((q, _E(en, 'UnicodeError')))
+    return out
+
+
+METHODS = {'bit_length': m_bit_length, 'popitem': m_popitem, 'decode': m_decode, 'append': m_append, 'extend': m_extend, 'get': m_get, 'items': m_items, 'keys': m_keys, 'values': m_values, 'add': m_add,
            'startswith': m_startswith, 'join': m_join, 'format': m_format, 'lower': m_lower, 'pop': m_pop, 'setdefault': m_setdefault,
            'update': m_update, 'copy': m_copy, 'split': m_split, 'strip': m_strip, 'encode': m_encode, 'index': m_index}
